@@ -6,7 +6,7 @@
    What is not expressible here: the Go memory model and scheduler; that the code takes the locks where the
    model says is checked dynamically (lock probes at every shared access, race detector, answer comparison). *)
 From Coq Require Import List Arith Bool.
-From UF Require Import Model.Conc Proofs.C14Proofs.
+From UF Require Import Model.Conc Model.ConcQuery Proofs.C14Proofs Proofs.ConcQueryProofs.
 Import ListNotations.
 
 Section Statements.
@@ -111,3 +111,82 @@ Theorem C14_strategy_allowed : forall t h tk,
   allowed nat nat ex_content ex_compile h tk.
 Proof. exact ex_allowed. Qed.
 Print Assumptions C14_strategy_allowed.
+
+(* ================= whole queries (Model/ConcQuery.v) =================
+   A query is a program over RetrieveRule (cache lookup; on a miss: load under the list mutex, insert under the write
+   lock, continue with what the cache then holds) and preparePattern (compile once under the rule mutex).
+   EVERY CONCURRENT QUERY RETURNS WHAT THE SAME QUERY RETURNS SEQUENTIALLY: for every number of goroutines, whatever
+   the others run, under every schedule, the result a query computes is its meaning over one fixed store
+   index -> object (the store the cache is committed to; the same for all goroutines). *)
+Section Queries.
+Variable rule cval : Type.
+Variable content : nat -> nat -> option rule.
+Variable compile : nat -> cval.
+Variable idx_of : nat -> nat * nat.
+Variable obj0 : nat * nat -> nat.
+Variable progs : tid -> list (task elk (ecomp rule cval) (eout rule cval) * list (eout rule cval)) ->
+                 option (task elk (ecomp rule cval) (eout rule cval)).
+Hypothesis progs_allowed : forall t h tk, consistent elk (ecomp rule cval) (eout rule cval) progs t h ->
+  progs t h = Some tk -> allowed rule cval content compile h tk.
+Variable c0 : elk -> ecomp rule cval.
+Hypothesis c0_good : forall k, Good2 rule cval content compile idx_of k (c0 k).
+Variable sched : list tid.
+Let s := run elk elk_eq_dec (ecomp rule cval) (eout rule cval) (init elk (ecomp rule cval) (eout rule cval) c0 progs) sched.
+
+Theorem C14_query_result : forall t A (p : qprog rule cval A), (forall h, progs t h = qstrat rule cval content compile p h) ->
+  forall a, qresult rule cval p (hist (th s t)) = Some a ->
+  a = sem rule cval compile (vstore rule cval content obj0 progs c0 sched) p.
+Proof. exact (query_result rule cval content compile idx_of obj0 progs progs_allowed c0 c0_good sched). Qed.
+Theorem C14_query_finished : forall t A (p : qprog rule cval A), (forall h, progs t h = qstrat rule cval content compile p h) ->
+  finished elk (ecomp rule cval) (eout rule cval) (th s t) -> exists a, qresult rule cval p (hist (th s t)) = Some a.
+Proof. exact (query_finished rule cval content compile idx_of progs progs_allowed c0 c0_good sched). Qed.
+(* the store holds the rule of the lists at each index, in one object per index *)
+Theorem C14_store : forall i, vstore rule cval content obj0 progs c0 sched i =
+  match content (fst i) (snd i) with Some r => Some (r, inst rule cval obj0 progs c0 sched i) | None => None end.
+Proof. reflexivity. Qed.
+(* ... and distinct indexes are distinct objects, provided allocations are (an object a goroutine allocates belongs to
+   the index it parsed it for) *)
+Hypothesis idx_obj0 : forall i, idx_of (obj0 i) = i.
+Hypothesis progs_tagged : forall t h i r x, consistent elk (ecomp rule cval) (eout rule cval) progs t h ->
+  progs t h = Some (T_insert rule cval i r x) -> idx_of x = i.
+Theorem C14_store_one_object_per_index : forall i j,
+  inst rule cval obj0 progs c0 sched i = inst rule cval obj0 progs c0 sched j -> i = j.
+Proof. exact (inst_injective rule cval content compile idx_of obj0 idx_obj0 progs progs_allowed progs_tagged c0 c0_good sched). Qed.
+End Queries.
+Print Assumptions C14_query_result.
+Print Assumptions C14_query_finished.
+Print Assumptions C14_store.
+Print Assumptions C14_store_one_object_per_index.
+
+(* a query's strategy only does what goroutines are allowed to do (the hypothesis above is satisfiable by queries) *)
+Theorem C14_query_allowed : forall rule cval content compile progs t A (p : qprog rule cval A),
+  (forall h, progs t h = qstrat rule cval content compile p h) ->
+  forall h tk, consistent elk (ecomp rule cval) (eout rule cval) progs t h ->
+  qstrat rule cval content compile p h = Some tk -> allowed rule cval content compile h tk.
+Proof. exact query_allowed. Qed.
+Print Assumptions C14_query_allowed.
+
+(* THE LOOKUP-TABLE QUERY, closed system, no hypothesis on strategies: every goroutine walks its own bucket of indexes
+   for its own request (retrieve, skip objects already in the result BY IDENTITY, Match, append — lookup/
+   shortcutstable.go MatchAll) on a cold cache; allocations of different goroutines are different objects.  However the
+   steps interleave, a completed query returned [table_spec]: a function of the lists and the request alone, in which
+   identity-based de-duplication has become de-duplication by index. *)
+Theorem C14_table_queries : forall rule cval content cof idx_of obj0, (forall i, idx_of (obj0 i) = i) ->
+  forall alloc, (forall t i, idx_of (alloc t i) = i) -> forall matches bucket sched t a,
+  qresult rule cval (tq rule cval alloc matches bucket t)
+    (hist (th (run elk elk_eq_dec (ecomp rule cval) (eout rule cval)
+                 (init elk (ecomp rule cval) (eout rule cval) (cold rule cval)
+                       (tq_progs rule cval content cof idx_of alloc matches bucket)) sched) t)) = Some a ->
+  a = table_spec rule cval content cof (matches t) (bucket t) [].
+Proof. exact all_table_queries. Qed.
+Print Assumptions C14_table_queries.
+Theorem C14_table_queries_finish : forall rule cval content cof idx_of alloc matches bucket sched t,
+  let s := run elk elk_eq_dec (ecomp rule cval) (eout rule cval)
+                 (init elk (ecomp rule cval) (eout rule cval) (cold rule cval)
+                       (tq_progs rule cval content cof idx_of alloc matches bucket)) sched in
+  finished elk (ecomp rule cval) (eout rule cval) (th s t) ->
+  exists a, qresult rule cval (tq rule cval alloc matches bucket t) (hist (th s t)) = Some a.
+Proof. exact all_table_queries_finish. Qed.
+Print Assumptions C14_table_queries_finish.
+(* non-vacuity: qx_runs (ConcQueryProofs.v) — three goroutines, overlapping buckets with repeated indexes, an irregular
+   schedule of 440 steps: all complete with the reference answers, by computation *)
